@@ -13,6 +13,15 @@ mod c08;
 mod c19;
 mod c20;
 
+#[cfg(feature = "db")]
+mod dbchecks;
+#[cfg(feature = "db")]
+mod dbgen;
+#[cfg(feature = "db")]
+mod dbh;
+#[cfg(feature = "db")]
+mod model;
+
 use util::*;
 
 fn main() {
@@ -32,6 +41,24 @@ fn main() {
         "c19" => c19::run(&args),
         "c20" => c20::run(&args),
         "noop" => Report::new("noop", "", "", 0),
+        #[cfg(feature = "db")]
+        "c04" => dbchecks::c04(&args),
+        #[cfg(feature = "db")]
+        "c05" => dbchecks::c05(&args),
+        #[cfg(feature = "db")]
+        "c09" => dbchecks::c09(&args),
+        #[cfg(feature = "db")]
+        "c10" => dbchecks::c10(&args),
+        #[cfg(feature = "db")]
+        "c11" => dbchecks::c11(&args),
+        #[cfg(feature = "db")]
+        "c12" => dbchecks::c12(&args),
+        #[cfg(feature = "db")]
+        "c16" => dbchecks::c16(&args),
+        #[cfg(feature = "db")]
+        "c17" => dbchecks::c17(&args),
+        #[cfg(feature = "db")]
+        "c18" => dbchecks::c18(&args),
         "replay" => {
             let path = args.pos.first().cloned().unwrap_or_default();
             let txt = std::fs::read_to_string(&path).expect("read replay file");
@@ -48,6 +75,12 @@ fn main() {
                 "C08" => c08::replay(payload, &mut rep),
                 "C19" => c19::replay(payload, &mut rep),
                 "C20" => c20::replay(payload, &mut rep),
+                #[cfg(feature = "db")]
+                "C04" | "C05" | "C09" | "C10" | "C11" | "C12" | "C16" | "C17" | "C18" => {
+                    let mut pl = payload.clone();
+                    pl["tier"] = v["tier"].clone();
+                    dbchecks::replay(&pl, &mut rep, &args)
+                }
                 _ => rep.notes.push(format!("no replay handler for {prop}")),
             }
             rep
